@@ -37,6 +37,8 @@ def run(rep, tier, seed):
             for N, M in bounds:
                 if "c-inference" in (s1, s2) and (N, M) not in ((2, 2), (3, 2), (3, 3)):
                     continue
+                if (N, M) == (4, 3) and not (s1 in ("p-entailment", "system-z") and p2 != "z3"):
+                    continue        # the wide universe only for the cheap pairs (thorough tier budget)
                 if tier == "quick" and "c-inference" in (s1, s2) and (N, M) != (2, 2):
                     N, M = 3, 2
                 o1 = dict(system=s1, pm=p1, weakly=weakly, level="L2")
